@@ -5,6 +5,8 @@ import (
 	"go/types"
 	"math/bits"
 
+	psnames "seehuhn.de/go/postscript/type1/names"
+
 	"golang.org/x/tools/go/ssa"
 )
 
@@ -323,4 +325,14 @@ func init() {
 	intrinsics["(*sync.RWMutex).RLock"] = func(e *Exec, args []Value, st string) Value { return nil }
 	intrinsics["(*sync.RWMutex).RUnlock"] = func(e *Exec, args []Value, st string) Value { return nil }
 	intrinsics["sync.runtime_registerPoolCleanup"] = func(e *Exec, args []Value, st string) Value { return nil }
+}
+
+func init() {
+	// Adobe glyph list functions: native on concrete strings (the package parses an embedded glyph list lazily)
+	intrinsics["seehuhn.de/go/postscript/type1/names.FromUnicode"] = func(e *Exec, args []Value, st string) Value {
+		return StrV(psnames.FromUnicode(mustStr(args[0], "names.FromUnicode")))
+	}
+	intrinsics["seehuhn.de/go/postscript/type1/names.IsValid"] = func(e *Exec, args []Value, st string) Value {
+		return Bool(psnames.IsValid(mustStr(args[0], "names.IsValid")))
+	}
 }
